@@ -50,6 +50,7 @@ type Leak struct {
 	Func  string `json:"func"`
 	State string `json:"state"`
 	Lib   bool   `json:"lib"`
+	Gid   int    `json:"gid"`
 }
 
 // ColRes is the state of a report column channel after rendering.
@@ -375,6 +376,7 @@ func census() ([]Leak, bool) {
 	buf := make([]byte, 1<<20)
 	start := time.Now()
 	var last []Leak
+	prevSig := "-"
 	for iter := 0; ; iter++ {
 		for k := 0; k < 50; k++ {
 			runtime.Gosched()
@@ -386,13 +388,28 @@ func census() ([]Leak, bool) {
 		}
 		leaks, busy := parseStacks(string(buf[:n]), me)
 		if !busy {
-			return leaks, false
+			// demand two identical consecutive snapshots: a goroutine that is only transiently in a wait state
+			// (runtime semaphores, GC) moves on in between
+			sig := fmt.Sprint(leaks)
+			if sig == prevSig {
+				return leaks, false
+			}
+			prevSig = sig
+		} else {
+			prevSig = "-"
 		}
 		last = leaks
 		if iter > 200 && time.Since(start) > 5*time.Second {
 			return last, true
 		}
 	}
+}
+
+// parkedStates are the wait reasons of a goroutine that only another goroutine (or nobody) can wake.
+var parkedStates = map[string]bool{
+	"chan receive": true, "chan send": true, "select": true, "semacquire": true,
+	"sync.WaitGroup.Wait": true, "sync.Mutex.Lock": true, "sync.RWMutex.Lock": true, "sync.RWMutex.RLock": true,
+	"sync.Cond.Wait": true, "chan receive (nil chan)": true, "chan send (nil chan)": true, "select (no cases)": true,
 }
 
 func parseStacks(dump string, me int) (leaks []Leak, busy bool) {
@@ -416,8 +433,8 @@ func parseStacks(dump string, me int) (leaks []Leak, busy bool) {
 		if i := strings.Index(state, ","); i >= 0 {
 			state = state[:i]
 		}
-		switch state {
-		case "running", "runnable", "syscall", "copystack", "preempted":
+		if !parkedStates[state] {
+			// running, runnable, syscall, GC assist wait, preempted, ...: not settled yet
 			busy = true
 			continue
 		}
@@ -443,7 +460,7 @@ func parseStacks(dump string, me int) (leaks []Leak, busy bool) {
 				fn = name
 			}
 		}
-		leaks = append(leaks, Leak{Func: fn, State: state, Lib: lib})
+		leaks = append(leaks, Leak{Func: fn, State: state, Lib: lib, Gid: id})
 	}
 	return leaks, busy
 }
